@@ -141,7 +141,7 @@ impl Scenario for Metrics {
         let big = tier == Tier::Thorough;
         let tg = crate::data::TableGen { parts: (1, 4), batches: (0, if big { 6 } else { 4 }), rows: (0, if big { 16 } else { 8 }), key_domain: *rng.pick(&[2i64, 4, 12]), ..Default::default() };
         let q = queries::generate(rng, Family::Any);
-        let pressure = rng.chance(1, 3);
+        let pressure = rng.chance(1, 2);
         json!({
             "tables": {"a": {"parts": tg.generate(rng), "sorted": false}, "b": {"parts": tg.generate(rng), "sorted": false}},
             "query": q,
